@@ -57,6 +57,49 @@ def handleResolver (d : Bytes) : Out (Option Packet) :=
     | .err => .ok none
     | .ok p => .ok (some p)
 
+/-! ### sending the reply
+
+`handleResponder` ends with the bytes to send. What the loop does when `UdpSocket::send_to` refuses
+them decides whether one datagram can end the service: a reply is as large as the matching records
+times the number of questions, so a query of a few hundred questions for one registered name asks for
+more than a datagram can carry. -/
+
+/-- the largest UDP payload over IPv4: `send_to` of more fails with EMSGSIZE -/
+def udpMaxPayload : Nat := 65507
+
+/-- `UdpSocket::send_to`: refused because of the size, or by the environment (`envOk = false`:
+destination unreachable, interface down, buffer full) -/
+def sendTo (b : Bytes) (envOk : Bool) : Bool := envOk && decide (b.length ≤ udpMaxPayload)
+
+/-- what one iteration of a receive loop leaves behind -/
+inductive LoopStep where
+  | continues (sent : Option Bytes)
+  | ends
+deriving DecidableEq, Repr
+
+/-- how a loop treats a failed send: the error is logged and the reply dropped, or `?` returns from
+the loop function and the thread ends -/
+inductive OnSendError where
+  | log | propagate
+deriving DecidableEq, Repr
+
+/-- `SimpleMdnsResponder::responder_loop` (both flavours), one iteration; since fix 4185208 the
+policy is `.log` (`Props/TieEnv.lean` reads it from the source) -/
+def responderIteration (pol : OnSendError) (s : Store) (d : Bytes) (now : Nat) (envOk : Bool) :
+    Out LoopStep :=
+  match handleResponder s d now with
+  | .panic => .panic
+  | .err => .err
+  | .ok none => .ok (.continues none)
+  | .ok (some b) =>
+    if sendTo b envOk then .ok (.continues (some b))
+    else match pol with
+      | .log => .ok (.continues none)
+      | .propagate => .ok .ends
+
+/-- the policy of the code: `if let Err(err) = sender_socket.send_to(..) { log::error!(..) }` -/
+def responderSendPolicy : OnSendError := .log
+
 /-- the records `ServiceDiscovery::new` registers for its own instance: the service PTR and the
 instance's address, SRV and TXT records -/
 def discoveryInit (service full : Name) (own : List RR) : Store :=
